@@ -285,6 +285,8 @@ class CatLinearOperator(LinearOperator):
             ]
 
         elif isinstance(cat_dim_indices, int):  # Should only happen for cat on batch dim
+            if cat_dim_indices < 0:  # the offsets below are relative to the start of the concatenated dimension
+                cat_dim_indices = cat_dim_indices + self.idx_to_tensor_idx.numel()
             target_tensor = self.idx_to_tensor_idx[cat_dim_indices].item()
             cat_dim_indices = cat_dim_indices - self.cat_dim_cum_sizes[target_tensor]
             indices[self.cat_dim] = cat_dim_indices
